@@ -7,6 +7,8 @@ use serde_json::json;
 use text2num::replace_numbers_in_text;
 
 pub const SEPARATORS: [&str; 2] = [" xyzzy plugh xyzzy. ", " plugh xyzzy plugh xyzzy! "];
+pub const PRE: [&str; 8] = ["'", "-", "\"", "(", "« ", "... ", "-'", "''"];
+pub const SUF: [&str; 3] = ["", "'", "-"];
 pub const PUNCT: [&str; 14] = [",", ", ", ".", ". ", ";", ":", "!", "?", " - ", " / ", "(", "…", "—", " ' "];
 
 pub fn alphabet(l: L, n: usize) -> Vec<String> {
@@ -95,6 +97,95 @@ pub fn run(tier: Tier) -> i32 {
             acc.sample(json!({"lang": l.code(), "A": ph[ph.len() / 2], "S": SEPARATORS[0], "B": ph[ph.len() / 3]}));
         }
     });
+    // edge decorations: quotes, dashes and brackets glued to the end of A or the start of B
+    let (n_e, k_e) = (n.min(10), 2usize);
+    let mut eshards: Vec<(L, usize)> = vec![];
+    for l in langs::ALL {
+        for d in 0..PRE.len() {
+            eshards.push((l, d));
+        }
+    }
+    acc.merge(par_shards(eshards, |&(l, d), acc| {
+        let lang = l.facade();
+        let ph = phrases(&alphabet(l, n_e), k_e);
+        for &t in &[0.0, 10.0] {
+            for suf in SUF {
+                let aa: Vec<String> = ph.iter().map(|p| format!("{p}{suf}")).collect();
+                let bb: Vec<String> = ph.iter().map(|p| format!("{}{p}", PRE[d])).collect();
+                let alone_a: Vec<String> = aa.iter().map(|p| guard(|| replace_numbers_in_text(p, &lang, t)).unwrap_or_else(|e| e)).collect();
+                let alone_b: Vec<String> = bb.iter().map(|p| guard(|| replace_numbers_in_text(p, &lang, t)).unwrap_or_else(|e| e)).collect();
+                for (ai, a) in aa.iter().enumerate() {
+                    for (bi, b) in bb.iter().enumerate() {
+                        let s = SEPARATORS[0];
+                        acc.states += 1;
+                        acc.traces += 1;
+                        acc.transitions += 1;
+                        let text = format!("{a}{s}{b}");
+                        let got = guard(|| replace_numbers_in_text(&text, &lang, t)).unwrap_or_else(|e| e);
+                        let want = format!("{}{s}{}", alone_a[ai], alone_b[bi]);
+                        if got != want {
+                            ctx.report(acc, Violation { lang: l.code().into(), entry: "replace_text".into(), input: text, threshold: Some(t), clause: "rewrite(A S B, t) = rewrite(A, t) S rewrite(B, t)".into(), expected: want, observed: got });
+                        }
+                    }
+                }
+            }
+        }
+    }));
+    // long first parts: A = an optional enumeration + N filler words, for every N up to the bound
+    let nmax = tier.pick(320usize, 2200usize);
+    let mut lshards: Vec<(L, usize, usize)> = vec![];
+    for l in langs::ALL {
+        let mut lo = 0;
+        while lo <= nmax {
+            let hi = (lo + 40).min(nmax + 1);
+            lshards.push((l, lo, hi));
+            lo = hi;
+        }
+    }
+    acc.merge(par_shards(lshards, |&(l, lo, hi), acc| {
+        let lang = l.facade();
+        let c = vocab::cls(l);
+        let bs: Vec<String> = vec![
+            format!("{}... {}... {} xyzzy", c.one, c.unit, c.unit2),
+            format!("{}, {}, {}", c.one, c.unit, c.unit2),
+            format!("{} {}", c.one, c.unit),
+            format!("{} {}", c.tens, c.unit),
+            format!("{} {} {}", c.one, c.sep, c.unit),
+            format!("{}... {}", c.small_ord, c.small_ord),
+            format!("{}. {}", c.one, c.unit),
+            format!("{} {} {}", c.one, c.linking, c.unit),
+        ];
+        let heads: Vec<String> = vec![String::new(), format!("{}... {} ", c.one, c.unit)];
+        for &t in &[0.0, 10.0] {
+            let alone_b: Vec<String> = bs.iter().map(|p| guard(|| replace_numbers_in_text(p, &lang, t)).unwrap_or_else(|e| e)).collect();
+            for head in &heads {
+                for nf in lo..hi {
+                    let mut a = head.clone();
+                    for i in 0..nf {
+                        if i > 0 {
+                            a.push(' ');
+                        }
+                        a.push_str(if i % 2 == 0 { "xyzzy" } else { "plugh" });
+                    }
+                    let alone_a = guard(|| replace_numbers_in_text(&a, &lang, t)).unwrap_or_else(|e| e);
+                    for s in SEPARATORS {
+                        for (bi, b) in bs.iter().enumerate() {
+                            acc.states += 1;
+                            acc.traces += 1;
+                            acc.transitions += 2 * nf as u64 + 8;
+                            acc.nontrivial += 1;
+                            let text = format!("{a}{s}{b}");
+                            let got = guard(|| replace_numbers_in_text(&text, &lang, t)).unwrap_or_else(|e| e);
+                            let want = format!("{alone_a}{s}{}", alone_b[bi]);
+                            if got != want {
+                                ctx.report(acc, Violation { lang: l.code().into(), entry: "replace_text".into(), input: text, threshold: Some(t), clause: "rewrite(A S B, t) = rewrite(A, t) S rewrite(B, t), long A".into(), expected: want, observed: got });
+                            }
+                        }
+                    }
+                }
+            }
+        }
+    }));
     // second clause: punctuation between two spelled numbers keeps them apart
     let reps: [u64; 30] = [0, 1, 2, 5, 9, 10, 11, 12, 16, 20, 21, 22, 30, 70, 71, 80, 81, 90, 99, 100, 101, 110, 200, 1000, 1001, 2000, 21000, 100000, 1000000, 2000021];
     for l in langs::ALL {
@@ -123,7 +214,7 @@ pub fn run(tier: Tier) -> i32 {
     let cov = json!({
         "exhaustive": true,
         "rule": "all ordered pairs (A,B) of phrases of <= k symbols over the context alphabet x 2 strong separators x thresholds {0,10}, differential: rewrite(A S B) vs rewrite(A) S rewrite(B); all pairs of 30 representative numbers x 14 punctuation strings at threshold 0; non-trivial = pairs where A is changed by rewriting, plus all punctuation cases",
-        "bounds": {"alphabet": n, "phrase_depth": k, "phrases_per_language": per_lang.iter().map(|(l, p)| json!({l.code(): p.len()})).collect::<Vec<_>>(), "separators": SEPARATORS, "punctuation": PUNCT},
+        "bounds": {"alphabet": n, "phrase_depth": k, "phrases_per_language": per_lang.iter().map(|(l, p)| json!({l.code(): p.len()})).collect::<Vec<_>>(), "separators": SEPARATORS, "punctuation": PUNCT, "edge_decorations": {"prefix_of_B": PRE, "suffix_of_A": SUF, "phrase_depth": k_e}, "long_A_filler_words_up_to": nmax},
     });
     ctx.finish(acc, cov, vec!["hyphen and apostrophe adjoining letters are word-forming and are not used as separating punctuation".into()])
 }
